@@ -1169,6 +1169,7 @@ package jmespath
 //@   ensures {C18} [a-field-of-a-struct-is-found-by-the-name-with-its-first-letter-upper-cased] node.nodeType == ASTField && kindOf(value) == 25 ==> err == nil && same(result, (goHasField(value, capitalised(strOf(node.value))) && !goFieldUnexported(value, capitalised(strOf(node.value)))) ? goField(value, capitalised(strOf(node.value))) : nil)
 //@   ensures {C18} [a-field-of-a-nil-pointer-is-null-and-a-pointer-to-a-struct-is-followed] node.nodeType == ASTField && kindOf(value) == 22 ==> err == nil && same(result, (!goIsNil(value) && kindOf(goElem(value)) == 25 && goHasField(goElem(value), capitalised(strOf(node.value))) && !goFieldUnexported(goElem(value), capitalised(strOf(node.value)))) ? goField(goElem(value), capitalised(strOf(node.value))) : nil)
 //@   ensures {C18} [a-field-of-an-object-is-its-member-whatever-the-members-are] node.nodeType == ASTField && isObj(value) ==> err == nil && same(result, objHas(value, strOf(node.value)) ? objAt(value, strOf(node.value)) : nil)
+//@   ensures {C18} [an-index-into-a-typed-slice-selects-that-element-counting-from-the-end-when-negative] node.nodeType == ASTIndex && kindOf(value) == 23 && !isArr(value) ==> err == nil && same(result, (intOf(node.value) < 0 ? ((0 <= intOf(node.value) + goLen(value)) ? goIndex(value, intOf(node.value) + goLen(value)) : nil) : ((intOf(node.value) < goLen(value)) ? goIndex(value, intOf(node.value)) : nil)))
 //@   loop 4 invariant {C18} [typed-element-flattened] !isNil(reflectFlat) && allGo(reflectFlat, len(reflectFlat)) && 0 <= i
 //@   loop 4 decreases goLen(element) - i
 
